@@ -38,8 +38,9 @@ Definition ftype_name (t : N) : bytes :=
   else if t =? 2 then ascii "FieldTypeFloat32" else if t =? 3 then ascii "FieldTypeFloat64"
   else if t =? 4 then ascii "FieldTypeString" else if t =? 5 then ascii "FieldTypeSlice"
   else if t =? 6 then ascii "FieldTypeStruct" else if t =? 7 then ascii "FieldTypeBool"
-  else if t =? 8 then ascii "FieldTypeTime" else if t =? 9 then ascii "FieldTypeJSONObject"
-  else if t =? 10 then ascii "FieldTypeJSONArray" else if t =? 11 then ascii "FieldTypeFlatInt"
+  (* the generated stringer table stops at FieldTypeTime: later constants print numerically *)
+  else if t =? 8 then ascii "FieldTypeTime" else if t =? 9 then ascii "FieldType(9)"
+  else if t =? 10 then ascii "FieldType(10)" else if t =? 11 then ascii "FieldType(11)"
   else [].
 
 (** Codec.Descriptor().  A recursive type never finishes (the Go method
